@@ -27,7 +27,7 @@ CAUSES = ['shutdown', 'support-returns', 'support-raises', 'sigterm', 'ctrl-shut
           'cblock-shutdown', 'cblock-abort']     # control event sent by a CBlock, i.e. from inside the simulation task
 BOUNDS = {'quick': {'fault sites': len(FAULTS), 'termination causes': len(CAUSES),
                     'instants': 't_term, t_fault in [0, 12] s, stop_async duration vs stop_timeout symbolic',
-                    'circuit': '8 blocks, 2 creation orders'},
+                    'circuit': '9 blocks (two with asynchronous initialisation), 2 creation orders'},
           'thorough': {'fault sites': len(FAULTS), 'termination causes': len(CAUSES), 'instants': 'as quick',
                        'circuit': '8 blocks, 2 creation orders, fault + independent termination combined'}}
 OUTSIDE = ["a user start() override that raises after the base class start() has already created a task "
@@ -142,6 +142,16 @@ def build(env, log, faults, order, ds, st, t_fault, cblock_ctrl=None):
             while True:
                 await asyncio.sleep(7.0)
 
+    class PA2(edzed.AddonAsync, edzed.SBlock):
+        # a second block with an asynchronous initialisation (shorter time-out: awaited after 'pa')
+        async def init_async(self):
+            await asyncio.sleep(4.0)
+            self.set_output('async2')
+
+        def init_regular(self):
+            if not self.is_initialized():
+                self.set_output('regular2')
+
     oa_calls, of_calls = [], []
 
     async def oa_coro(value):
@@ -159,6 +169,7 @@ def build(env, log, faults, order, ds, st, t_fault, cblock_ctrl=None):
     makers = {
         'pa': lambda: instrument(PA, log, faults)('pa', init_timeout=10.0, stop_timeout=st),
         'pb': lambda: instrument(PB, log, faults)('pb', initdef='pb0', persistent=True),
+        'pa2': lambda: instrument(PA2, log, faults)('pa2', init_timeout=6.0),
         'tm': lambda: instrument(edzed.Timer, log, faults)('tm', t_on=3.0, t_off=3.0),
         'rep': lambda: instrument(edzed.Repeat, log, faults)('rep', dest='pa', etype='x', interval=4.0, stop_timeout=2.0),
         'oa': lambda: instrument(edzed.OutputAsync, log, faults)(
@@ -180,7 +191,7 @@ def build(env, log, faults, order, ds, st, t_fault, cblock_ctrl=None):
     return circ, blocks, oa_calls, of_calls
 
 
-ORDERS = [['pa', 'pb', 'tm', 'rep', 'oa', 'of', 'mt', 'fb'], ['fb', 'mt', 'of', 'oa', 'rep', 'tm', 'pb', 'pa']]
+ORDERS = [['pa', 'pb', 'pa2', 'tm', 'rep', 'oa', 'of', 'mt', 'fb'], ['fb', 'mt', 'of', 'oa', 'rep', 'tm', 'pa2', 'pb', 'pa']]
 
 
 def scen_life(env, fault_idx, cause, order_idx, sym_stop=False):
@@ -340,7 +351,7 @@ def scen_life(env, fault_idx, cause, order_idx, sym_stop=False):
             env.check('not-started-not-stopped', sp == 0, info=lambda: (n, sr, sp, fault, cause))
     # blocks with asynchronous clean-up are stopped (and awaited) before the remaining blocks
     async_blocks = [n for n in ('pa', 'rep', 'oa', 'mt') if log.count(n, 'stop')]
-    sync_blocks = [n for n in ('pb', 'tm', 'of', 'fb', 'trig') if log.count(n, 'stop')]
+    sync_blocks = [n for n in ('pb', 'pa2', 'tm', 'of', 'fb', 'trig') if log.count(n, 'stop')]
     if async_blocks and sync_blocks:
         last_async = max(log.index(n, 'stop') for n in async_blocks)
         first_sync = min(log.index(n, 'stop') for n in sync_blocks)
